@@ -11,24 +11,24 @@ CHECKS = {
         engine="seqx",
         category="model_checking",
         technique="explicit-state search over operation histories of the real backends, reference-model oracle (bounded exhaustive, state de-duplication)",
-        text="Every history of BaseStorage calls up to the depth bound, from the empty storage and from 8 seeded non-initial states, is executed on every backend configuration (in-memory, SQLite RDB, cached RDB, journal over list/file(2 locks)/fakeredis, in-process gRPC proxy over mem/journal/RDB/cached) and compared, call by call and getter by getter, with a dict-based reference model of the documented contract. No sampling: the enumeration is complete within the stated bounds.",
+        text="Every history of BaseStorage calls up to the depth bound, from the empty storage and from 9 seeded non-initial states, is executed on every backend configuration (in-memory, SQLite RDB, cached RDB, journal over list/file(2 locks)/fakeredis, in-process gRPC proxy over mem/journal/RDB/cached) and compared, call by call and getter by getter, with a dict-based reference model of the documented contract. No sampling: the enumeration is complete within the stated bounds.",
         note="Trusted: the reference model (vf/refmodel.py), SQLite standing for RDB, fakeredis standing for Redis, the in-process gRPC stub standing for the HTTP/2 transport. Depth bounds are small (see evidence).",
         design="3/C01",
     ),
     "C02": dict(
         engine="seqx",
         category="model_checking",
-        technique="bounded-exhaustive enumeration of objective programs (behaviour tuples), catch/callback/hostile-hook variants and the full tell() argument product on real studies, oracle = the clauses of the statement",
+        technique="bounded-exhaustive enumeration of objective programs (behaviour tuples), catch/callback/hostile-hook variants and the full tell() argument product on real studies, oracle = the clauses of the statement; optimize(n_jobs=2) by stateless model checking under the cooperative thread scheduler",
         text="Every tuple of 2 (thorough 3) behaviours from a 54-entry menu (return values of every type and shape incl. strings, containers, numpy, Decimal, huge ints, objects with hostile __float__; exceptions incl. KeyboardInterrupt and TrialPruned before/after reports) runs through Study.optimize on in-memory storage (singles on journal file, gRPC proxy, cached RDB and for 2 objectives), crossed with catch tuples, recording/raising/stopping callbacks and a sampler/pruner that raises in each of 6 hooks; plus tell(values, state, skip_if_finished) on trials in every state. Checked: nothing left RUNNING, COMPLETE iff convertible/NaN-free/one per objective with those floats, FAIL without values, propagation after failing, finished trials untouched by tell, callbacks once per trial, exactly n_trials.",
-        note="Sequential optimize only (n_jobs=1). float-convertibility is computed with float() in the same interpreter. str/bytes returns accept FAIL or COMPLETE-with-that-float.",
+        note="n_jobs=2 is explored under the thread scheduler for a curated behaviour menu (incl. stop() + uncaught exception), everything else is sequential optimize. float-convertibility is computed with float() in the same interpreter. str/bytes returns accept FAIL or COMPLETE-with-that-float.",
         design="3/C02",
     ),
     "C03": dict(
         engine="thx",
         category="model_checking",
-        technique="stateless model checking of the real storages: threads under a cooperative scheduler (sys.monitoring line events + cooperative locks), processes at SQL-statement level over real SQLite and at syscall level over a simulated file system; iterative preemption bounding, state caching for the file system part; brute-force linearizability oracle",
+        technique="stateless model checking of the real storages: threads under a cooperative scheduler (sys.monitoring line events + cooperative locks), processes at SQL-statement level over real SQLite, at syscall level over a simulated file system and at Redis-command level over fakeredis; iterative preemption bounding, state caching for the file system part; brute-force linearizability oracle",
         text="For every unordered pair of a 15-operation collision-forcing alphabet (plus curated 2x2 and 3x1 programs) all interleavings up to the preemption bound are enumerated for (A) 2-3 real threads sharing one storage object (in-memory, journal, cached RDB, gRPC client) with a scheduling point at every source line of the storage-layer file and at every lock operation, (B) processes/threads with their own connections on one SQLite file with a scheduling point at every SQL statement and commit (single-writer lock modelled, real SQLite executes), (C) processes with their own JournalStorage over one simulated journal file with a scheduling point at every syscall (both lock classes). Each complete history must equal, in return values and final state, some real-time-consistent sequential execution on the same backend.",
-        note="Line-granularity preemption for threads; locks replaced by cooperative ones discovered by type; bounds: threads 2 (mem) / 1 quick, 3 / 2 thorough; SQL 1 / 2; SimFS 2 / 3 with state caching. SQLite atomicity failures are known findings (see known_findings.json).",
+        note="Line-granularity preemption for threads; locks replaced by cooperative ones discovered by type; bounds: threads 2 (mem) / 1 quick, 3 / 2 thorough; SQL 1 / 2; SimFS 2 / 3 with state caching; Redis journal (Lua and use_cluster paths) 2 procs, bound 2. SQLite atomicity failures are known findings (see known_findings.json).",
         design="3/C03",
     ),
     "C04": dict(
@@ -156,7 +156,7 @@ CHECKS = {
         category="model_checking",
         technique="stateless model checking at SQL-statement level over real SQLite (single-writer lock modelled, worker death at every statement boundary) plus sequential retry-chain enumeration",
         text="2 (thorough 3) workers with their own heartbeat-enabled RDBStorage objects on one SQLite file run fail_stale_trials and/or study.ask(); every interleaving of their SQL statements up to the preemption bound, and the death of a sweeper before every statement/commit of its sweep; trial patterns: stale RUNNING (plain with param/report/user attr, enqueued with fixed params, two stale), fresh heartbeat, no heartbeat, finished with an old heartbeat; max_retry in {0,1,None}. Checked: each stale trial FAILed once a sweep completed, callback at most once per failed trial across workers, at most one retry per failure and <= max_retry in a chain, retry carries params/user attrs/fixed params and a correct retry history, protected trials untouched.",
-        note="SQLite only (heartbeats exist only on RDB); time is owned by the environment (heartbeat rows back-dated by SQL).",
+        note="SQLite only (heartbeats exist only on RDB); each worker's RUNNING->FAIL compare-and-set is spied on, so at-most-one-winner is checked per dead trial; time is owned by the environment (heartbeat rows back-dated by SQL).",
         design="3/C19",
     ),
     "C20": dict(
